@@ -11,6 +11,7 @@ import (
 	"os"
 	"path/filepath"
 	"strings"
+	"time"
 
 	"filippo.io/age/armor"
 	"filippo.io/age/xverif/internal/rd"
@@ -250,7 +251,7 @@ CHECK_DEADLOCK FALSE
 var allBad = []string{"full_b", "short47", "short46", "empty", "empty_crlf", "crcr", "long", "long65", "noncanon", "nopad", "midpad", "trail_sp", "lead_sp", "cr_in", "cr_lead", "cr_trail2", "kv", "garbage", "lower_marker", "sp_marker", "sp_end", "wrong_type", "pgp_crc", "partial", "ws1", "BEGIN", "short3", "ws_badutf", "ws_zwsp", "ws_nbsp"}
 
 func runRead(run *vk.Run, what, cfg string) {
-	res := run.TLC(what, vk.TLCOpts{Module: "ArmorGen", Config: cfg, Workers: 16})
+	res := run.TLC(what, vk.TLCOpts{Module: "ArmorGen", Config: cfg, Workers: 16, Timeout: 45 * time.Minute})
 	if res.Violated != "" || !res.OK {
 		vk.Infra("ArmorGen %s: specification-level failure: %s\n%s", what, res.Violated, res.Output)
 	}
@@ -315,7 +316,7 @@ func Run(tier string) {
 	seed := run.Seed
 	pre := set("ws1", "ws_crlf", "crcr", "ws_nbsp")
 	if run.Thorough() {
-		runRead(run, "good", readCfg(seed, set("ws1", "ws_crlf", "crcr", "ws_big", "ws_nbsp", "ws_uni"), set("BEGIN", "BEGIN_crlf"), set("full", "full_b", "full_crlf"), set("short1", "short2", "short3", "short46", "short47", "short3_crlf"), set("END", "END_nolf", "END_crlf"), set("ws1", "ws_crlf", "ws_big", "ws_uni"), "{}", "{}", 2, 3, 2, 0))
+		runRead(run, "good", readCfg(seed, set("ws1", "ws_crlf", "crcr", "ws_big", "ws_nbsp"), set("BEGIN", "BEGIN_crlf"), set("full", "full_b", "full_crlf"), set("short1", "short2", "short3", "short46", "short47", "short3_crlf"), set("END", "END_nolf", "END_crlf"), set("ws1", "ws_crlf", "ws_uni"), "{}", "{}", 2, 3, 2, 0))
 		runRead(run, "bad", readCfg(seed, pre, set("BEGIN"), set("full", "full_crlf"), set("short3", "short47"), set("END", "END_nolf"), set("ws1"), set(allBad...), set("END", "full", "short3", "garbage", "ws1"), 1, 2, 1, 3))
 		runWrite(run, "write", writeCfg(seed, "{0,1,2,3,47,48,49,95,96,97}", 4, 300))
 		run.Exhaustive()
